@@ -576,13 +576,13 @@ PROPS = {
     "C05": dict(key="C05", unsafe="0", streams=("S1", "S2", "S3"), s1=r"cleanup|valid_opcodes", ns=["C05", "Tables"], big=True),
     "C06": dict(key="C06", unsafe="mix", streams=("S2", "S3"), s1=r"^$", ns=["C06"], big=True),
     "C08": dict(key=None, unsafe="mix", streams=("S6", "S3"), s1=r"^$", ns=["C08"]),
-    "C09": dict(key="gen", unsafe="mix", streams=("S3", "S4", "S5"), s1=r"^$", ns=["C09", "C18", "Tables"], big=True),
+    "C09": dict(key="gen", unsafe="mix", streams=("S3", "S4", "S5", "S11"), s1=r"^$", ns=["C09", "C18", "Tables"], big=True),
     "C10": dict(key="C10", unsafe="mix", streams=("S1", "S2", "S7f"), s1=r"can_emit:(Ext|NextBuffer|ReadOnlyBuffer)|valid_opcodes",
                 ns=["C10", "Tables"]),
     "C11": dict(key="C11", unsafe="mix", streams=("S1", "S2", "S3"), s1=r"cleanup", ns=["C11"], big=True),
     "C15": dict(key=None, unsafe="mix", streams=("S4", "S3", "S2r0"), s1=r"^$", ns=["C15"]),
     "C16": dict(key=None, unsafe="mix", streams=("S4",), s1=r"^$", ns=["C16", "Tables"]),
-    "C17": dict(key=None, unsafe="0", streams=("S1", "S2"), s1=None, ns=["C17", "Tables"]),
+    "C17": dict(key=None, unsafe="0", streams=("S1", "S2", "S11"), s1=None, ns=["C17", "Tables"]),
     "C18": dict(key=None, unsafe="mix", streams=("S5",), s1=r"^$", ns=["C18", "Tables"]),
 }
 
@@ -1281,8 +1281,148 @@ def stream_s7_flags(cx):
         cx.corr.append(dict(stream="S7", count=len(bad), first=bad[0][:800]))
 
 
+def steer_plans(cfgs_plans, extra=0):
+    """(cfg, [opcode names]) -> case lines whose fuzzer bytes make the generator emit exactly that plan (None where the
+    guards do not admit the plan)"""
+    reqs = ["steer %s frame=0 plan=%s" % (cfg, ",".join(pl)) for cfg, pl in cfgs_plans]
+    outs = [l for l in drive("\n".join(reqs) + "\n") if l.startswith("steer ")]
+    if len(outs) != len(reqs):
+        raise RuntimeError("steer answered %d of %d" % (len(outs), len(reqs)))
+    lines = []
+    for k, ((cfg, pl), o) in enumerate(zip(cfgs_plans, outs)):
+        if o.startswith("steer ok"):
+            lines.append("id=%d %s min=%d max=%d warm=0 mode=arb:%s" % (k, cfg, len(pl) + extra, len(pl) + extra, toks(o).get("bytes", "-")))
+        else:
+            lines.append(None)
+    return lines
+
+
+def plan_family(cx):
+    """aliasing-heavy opcode plans (the cycle-closing plans of C14: every in-place mutation with the object itself,
+    a tuple around it or a memo copy of it as operand) through the public API, judged by this property's oracle —
+    a panic (e.g. a RefCell borrowed twice), a hang or a wrong byte on such a sequence practically never shows up
+    in random generations"""
+    key = cx.P["key"]
+    cps = []
+    for p in range(6):
+        cfg = "P=%d unsafe=0 ext=0 buf=0 mask=0 rate=0000000000000000" % p
+        for pl in cycle_plans(p):
+            if len(pl) < 60:
+                cps.append((cfg, pl))
+                # the same with a neutral operand in between and with the key/value roles swapped
+                if "SetItem" in pl and "Int:01" in pl:
+                    i = pl.index("Int:01")
+                    cps.append((cfg, pl[:i] + ["None"] + pl[i + 1:]))
+                    if i >= 1:
+                        q = list(pl); q[i - 1], q[i] = q[i], q[i - 1]
+                        cps.append((cfg, q))
+    lines = [l for l in steer_plans(cps) if l]
+    cx.cov["plan_family_cases"] = len(lines)
+    if len(lines) < 100:
+        cx.corr.append(dict(stream="plans", count=1, first="only %d aliasing plans were admitted by the model's guards" % len(lines)))
+        return
+    rc, req, err = sh([HARNESS, "oracle", "--stdin"], inp="\n".join(lines) + "\n", timeout=STREAM_TIMEOUT[0])
+    if rc != 0:
+        cx.corr.append(dict(stream="plans", count=1, first="harness oracle --stdin failed: " + err[-200:]))
+        return
+    rl = [l for l in req.split("\n") if l.startswith("oracle ")]
+    vs = [toks(l) for l in drive(req) if l.startswith("oracle ")]
+    for r, v in zip(rl, vs):
+        cx.cov["evaluations"] += 1
+        cx.bump("aliasing-plan")
+        if v.get("gen") != "ok":
+            if key == "gen":
+                cx.failing.append(("oracle", case_of(r), "generation_did_not_return_a_pickle:" + v.get("gen", "?")))
+        elif key and key != "gen" and v.get(key, "").startswith("FAIL"):
+            cx.failing.append(("oracle", case_of(r), v[key]))
+
+
+def run_seq(depth):
+    """S11: every sequence of guarded opcodes up to `depth` (+1 for the children of each node) from the empty state,
+    executed on a live generator one process_stack_ops at a time; memoised like S1 under the hash of the two binaries"""
+    h = hashlib.sha256()
+    for b in (HARNESS, DRIVER):
+        with open(b, "rb") as f:
+            h.update(f.read())
+    cdir = os.path.join(BUILD, "s1cache")
+    cfile = os.path.join(cdir, "seq-%s-%d.json" % (h.hexdigest()[:24], depth))
+    if os.path.exists(cfile):
+        try:
+            d = json.load(open(cfile))
+            return d["n"], d["children"], d["mism"]
+        except Exception:
+            pass
+    from concurrent.futures import ThreadPoolExecutor
+    with ThreadPoolExecutor(max_workers=NPROC) as ex:
+        parts = list(ex.map(lambda i: _harness_one(["seq", "--depth", str(depth), "--shard", "%d/%d" % (i, NPROC)]), range(NPROC)))
+    req = "".join(parts)
+    n = req.count("\n")
+    outs = [l for l in drive(req) if l.startswith("seq ")]
+    mism = [l for l in outs if not l.startswith("seq ok")]
+    children = sum(int(toks(l).get("children", "0")) for l in outs if l.startswith("seq ok"))
+    if len(outs) != n:
+        mism.append("seq MISMATCH P=? prefix=- :: driver answered %d of %d seq requests" % (len(outs), n))
+    if not mism:
+        os.makedirs(cdir, exist_ok=True)
+        json.dump(dict(n=n, children=children, mism=mism), open(cfile, "w"))
+    return n, children, mism
+
+
+def stream_s11(cx):
+    """S11 *seq*: exhaustive opcode sequences through live objects (aliases, memo copies, in-place mutation of shared
+    containers — nothing S1's freshly built states contain) vs the object-level model: valid-opcode list at every
+    node, live object graph after every step; a panic of process_stack_ops shows as a differing child.  Every
+    disagreeing sequence is turned into fuzzer bytes (steer) and given to the real generator through the public API."""
+    depth = 3 if cx.tier == "quick" else 4
+    n, children, mism = run_seq(depth)
+    cx.cov["s11_nodes"] = n
+    cx.cov["s11_sequences"] = children
+    cx.cov["disagreements_checked"] += children
+    if not mism:
+        return
+    cx.corr.append(dict(stream="S11", count=len(mism), first=mism[0][:1500]))
+    # disagreeing sequences -> inputs
+    name_of = {v: k for k, v in op_bytes().items()}
+    cps = []
+    for m in mism[:40]:
+        h = toks(m.partition(" :: ")[0])
+        pre = [] if h.get("prefix", "-") == "-" else [name_of.get(t.split(":")[0], "?") for t in h["prefix"].split(",")]
+        kids = re.findall(r"(?:^|\|_)([A-Za-z0-9]+):_live_object_graph", m.partition(" :: ")[2]) or [None]
+        for kid in kids[:3]:
+            pl = pre + ([kid] if kid else [])
+            if pl and "?" not in pl:
+                cps.append(("P=%s unsafe=0 ext=1 buf=1 mask=0 rate=0000000000000000" % h.get("P", "2"), pl))
+    try:
+        lines = [l for l in steer_plans(cps) if l]
+    except Exception as e:
+        cx.corr.append(dict(stream="S11", count=1, first="steer for the disagreeing sequences could not run: %s" % str(e)[:200]))
+        return
+    cx.cov["targeted_inputs_tried"] = cx.cov.get("targeted_inputs_tried", 0) + len(lines)
+    if not lines:
+        return
+    key = cx.P["key"] if cx.P else None
+    if cx.prop == "C14":
+        rc, out, err = sh([HARNESS, "heap", "--stdin"], inp="\n".join(lines) + "\n", timeout=STREAM_TIMEOUT[0])
+        for l in out.split("\n"):
+            if l.startswith("heap id"):
+                r = toks(l)
+                if int(r.get("delta", "0")) != 0:
+                    cx.failing.append(("S8", case_of(l), "%s_bytes_still_live_after_the_generator_was_dropped(sequence_from_S11)" % r.get("delta")))
+        return
+    rc, req, err = sh([HARNESS, "oracle", "--stdin"], inp="\n".join(lines) + "\n", timeout=STREAM_TIMEOUT[0])
+    rl = [l for l in req.split("\n") if l.startswith("oracle ")]
+    vs = [toks(l) for l in drive(req) if l.startswith("oracle ")]
+    for r, v in zip(rl, vs):
+        cx.cov["evaluations"] += 1
+        if v.get("gen") != "ok":
+            if key == "gen":
+                cx.failing.append(("oracle", case_of(r), "generation_did_not_return_a_pickle:" + v.get("gen", "?")))
+        elif key and key != "gen" and v.get(key, "").startswith("FAIL"):
+            cx.failing.append(("oracle", case_of(r), v[key]))
+
+
 STREAMS = {"S7f": stream_s7_flags, "S1": stream_s1, "S2": stream_s2, "S3": stream_s3, "S4": stream_s4, "S5": stream_s5, "S6": stream_s6,
-           "S2r0": lambda cx: stream_s2(cx, rate0_only=True)}
+           "S2r0": lambda cx: stream_s2(cx, rate0_only=True), "S11": stream_s11}
 
 
 def rerun_any(stream, line):
@@ -1387,6 +1527,11 @@ def check_property(prop, tier, seed):
             directed_values(cx)
         except Exception as e:
             cx.corr.append(dict(stream="directed", count=1, first="directed-value family could not run: %s" % str(e)[:400]))
+    if prop in ("C09", "C01", "C03", "C04"):
+        try:
+            plan_family(cx)
+        except Exception as e:
+            cx.corr.append(dict(stream="plans", count=1, first="aliasing-plan family could not run: %s" % str(e)[:400]))
     if prop in ("C02", "C17", "C01", "C05", "C11", "C09"):
         try:
             memo_boundary(cx)
@@ -2017,8 +2162,15 @@ def check_c14(prop, tier, seed):
             total += d
             if d != 0:
                 cx.failing.append(("S8", case_of(l), "%d_bytes_still_live_after_the_generator_was_dropped(cycle_plan)" % d))
+            elif r.get("gen", "ok") != "ok":
+                # a plan the model's guards admit and the implementation cannot generate: the tie is broken (the panic itself is C09's)
+                cx.corr.append(dict(stream="S8", count=1, first="cycle plan not generated by the implementation: %s %s" % (r.get("gen"), case_of(l)[:300])))
     except Exception as e:
         cx.corr.append(dict(stream="S8", count=1, first="cycle-plan stream could not run: %s" % str(e)[:400]))
+    try:
+        stream_s11(cx)
+    except Exception as e:
+        cx.corr.append(dict(stream="S11", count=1, first="sequence stream could not run: %s" % str(e)[:400]))
     try:
         stream_s10(cx, [l for l in (locals().get("lines") or []) if len(l) < 4000])
     except Exception as e:
